@@ -51,6 +51,188 @@ Example C07_lookahead_coverage :
   map piq_always DialectTables.all_dialects = [true; true; true; true; true; true; true; true; true; true; false; true; true].
 Proof. exact probing_dialects. Qed.
 
+(** * Layout gaps (LexerGaps.v): the same for gaps that contain COMMENTS.  A layout gap
+    ([layout_gapb]) is a non-empty string that the model lexes to whitespace/comment tokens only
+    and that is closed (a final line comment contains its LF; block comments are balanced by the
+    model's nesting rule).  After a prefix that lexes on its own and does not end in a line
+    comment, a gap that starts with a blank can be replaced by any other such gap. *)
+Require Import SqlV.LexerGaps SqlV.LexerGapsInst.
+
+Theorem C07_layout_gap : forall (d : Lexer.dialect) unesc a g g' rest tsa ts,
+  In d DialectTables.all_dialects -> piq_always d = true ->
+  starts_blankb g = true -> starts_blankb g' = true ->
+  layout_gapb d std_uni unesc g = true -> layout_gapb d std_uni unesc g' = true ->
+  tokenize d std_uni unesc a = LexOk tsa -> ~ ends_with_line (map fst tsa) ->
+  tokenize d std_uni unesc (a ++ g ++ rest) = LexOk ts ->
+  exists ts', tokenize d std_uni unesc (a ++ g' ++ rest) = LexOk ts' /\
+              nows (map fst ts') = nows (map fst ts).
+Proof. exact tokenize_layout_gap_dialects. Qed.
+Print Assumptions C07_layout_gap.
+
+(** every generated dialect, Redshift included, for prefixes without a delimited-identifier opener
+    followed by whitespace only *)
+Theorem C07_layout_gap_probe_free : forall (d : Lexer.dialect) unesc a g g' rest tsa ts,
+  In d DialectTables.all_dialects -> probe_freeb d std_uni a = true ->
+  starts_blankb g = true -> starts_blankb g' = true ->
+  layout_gapb d std_uni unesc g = true -> layout_gapb d std_uni unesc g' = true ->
+  tokenize d std_uni unesc a = LexOk tsa -> ~ ends_with_line (map fst tsa) ->
+  tokenize d std_uni unesc (a ++ g ++ rest) = LexOk ts ->
+  exists ts', tokenize d std_uni unesc (a ++ g' ++ rest) = LexOk ts' /\
+              nows (map fst ts') = nows (map fst ts).
+Proof. exact tokenize_layout_gap_probe_free. Qed.
+Print Assumptions C07_layout_gap_probe_free.
+
+(** converse direction: a comment gap collapses to one blank, one blank expands to a comment gap *)
+Theorem C07_layout_gap_to_blank : forall (d : Lexer.dialect) unesc a g b rest tsa ts,
+  In d DialectTables.all_dialects -> piq_always d = true ->
+  starts_blankb g = true -> layout_gapb d std_uni unesc g = true -> blank b ->
+  tokenize d std_uni unesc a = LexOk tsa -> ~ ends_with_line (map fst tsa) ->
+  tokenize d std_uni unesc (a ++ g ++ rest) = LexOk ts ->
+  exists ts', tokenize d std_uni unesc (a ++ b :: rest) = LexOk ts' /\
+              nows (map fst ts') = nows (map fst ts).
+Proof. exact layout_gap_to_blank_dialects. Qed.
+Print Assumptions C07_layout_gap_to_blank.
+
+Theorem C07_blank_to_layout_gap : forall (d : Lexer.dialect) unesc a g b rest tsa ts,
+  In d DialectTables.all_dialects -> piq_always d = true ->
+  starts_blankb g = true -> layout_gapb d std_uni unesc g = true -> blank b ->
+  tokenize d std_uni unesc a = LexOk tsa -> ~ ends_with_line (map fst tsa) ->
+  tokenize d std_uni unesc (a ++ b :: rest) = LexOk ts ->
+  exists ts', tokenize d std_uni unesc (a ++ g ++ rest) = LexOk ts' /\
+              nows (map fst ts') = nows (map fst ts).
+Proof. exact blank_to_layout_gap_dialects. Qed.
+Print Assumptions C07_blank_to_layout_gap.
+
+(** every gap of a text at once: [segs] lists (segment, gap, replacement gap); each segment lexes
+    on its own and does not end in a line comment, each gap starts with a blank *)
+Theorem C07_every_layout_gap : forall (d : Lexer.dialect) unesc (segs : list (str * str * str)) fin ts,
+  In d DialectTables.all_dialects -> piq_always d = true ->
+  forallb (seg3_okb d unesc) segs = true ->
+  tokenize d std_uni unesc (weave (map fst segs) fin) = LexOk ts ->
+  exists ts', tokenize d std_uni unesc (weave (map (fun s => (fst (fst s), snd s)) segs) fin) = LexOk ts' /\
+              nows (map fst ts') = nows (map fst ts).
+Proof. exact tokenize_every_gap_dialects. Qed.
+Print Assumptions C07_every_layout_gap.
+
+(** a gap lexes to the same whitespace tokens whatever follows it (a final CR merges with LF) *)
+Theorem C07_layout_gap_steps : forall d u unesc tsg g,
+  Steps d u unesc g tsg [] -> probe_freeb d u g = true -> gap_toks tsg = true ->
+  forall X, exists e, Steps d u unesc (g ++ X) tsg e /\ (e = X \/ X = cLF :: e).
+Proof. exact layout_gap_steps. Qed.
+Print Assumptions C07_layout_gap_steps.
+
+(** gaps with ANY first character (e.g. a comment opener directly after a token): the adjacency
+    is an explicit hypothesis -- the prefix ends at a token boundary of both texts *)
+Theorem C07_layout_gap_boundary : forall d u unesc a g g' rest tsa tsa' ts,
+  layout_gap0 d u unesc g -> layout_gap0 d u unesc g' ->
+  Steps d u unesc (a ++ g ++ rest) tsa (g ++ rest) ->
+  Steps d u unesc (a ++ g' ++ rest) tsa' (g' ++ rest) -> nows tsa' = nows tsa ->
+  Run d u unesc (a ++ g ++ rest) ts ->
+  exists ts', Run d u unesc (a ++ g' ++ rest) ts' /\ nows ts' = nows ts.
+Proof. exact layout_gap_boundary. Qed.
+Print Assumptions C07_layout_gap_boundary.
+
+(** without [starts_blankb g] the theorem is false of the model: the last token of the prefix
+    fuses with the comment opener ([fuses]: inserting one blank before the gap changes the
+    non-whitespace tokens).  Refuted classes, on the generated tables:
+    "x-" + "-- c" (every dialect: the minus joins the comment), "x|" + "/* c */" (every dialect:
+    "|/"), PostgreSQL operator characters + any opener (custom operator), "#" + "--" ("#-"),
+    "@" + "/*" where "@" starts identifiers, "x/" + "/*" where "//" is an operator (DuckDB,
+    Generic) or a comment opener (Snowflake). *)
+Theorem C07_gap_adjacency_refuted :
+  Forall (fun d => fuses d (s2l "x-") (s2l "-- c" ++ LFs) (s2l "y")) DialectTables.all_dialects /\
+  Forall (fun d => fuses d (s2l "x|") (s2l "/* c */") (s2l "y")) DialectTables.all_dialects /\
+  (fuses dl_postgresql (s2l "x<") (s2l "/* c */") (s2l "y") /\
+   fuses dl_postgresql (s2l "x<") (s2l "-- c" ++ LFs) (s2l "y")) /\
+  fuses dl_ansi (s2l "x #") (s2l "-- c" ++ LFs) (s2l "y") /\
+  (fuses dl_mssql (s2l "@") (s2l "/* c */") (s2l "y") /\
+   fuses dl_mysql (s2l "@") (s2l "/* c */") (s2l "y") /\
+   fuses dl_generic (s2l "@") (s2l "/* c */") (s2l "y")) /\
+  (fuses dl_generic (s2l "x/") (s2l "/* c */") (s2l "y") /\
+   fuses dl_duckdb (s2l "x/") (s2l "/* c */") (s2l "y")) /\
+  fuses dl_snowflake (s2l "x/") (s2l "/* c */") (s2l "y").
+Proof.
+  exact (conj minus_then_line_comment_fuses (conj pipe_then_block_comment_fuses
+        (conj pg_operator_then_block_comment_fuses (conj sharp_then_line_comment_fuses
+        (conj at_then_block_comment_fuses (conj slash_then_block_comment_fuses_duck
+              slash_then_block_comment_fuses_snowflake)))))).
+Qed.
+Print Assumptions C07_gap_adjacency_refuted.
+
+(** what a fusing triple refutes *)
+Theorem C07_fuses_refutes : forall d a g rest, fuses d a g rest ->
+  exists g' tsa ts,
+    layout_gap d std_uni true g /\ layout_gap d std_uni true g' /\ starts_blank g' /\
+    tokenize d std_uni true a = LexOk tsa /\ ~ ends_with_line (map fst tsa) /\
+    tokenize d std_uni true (a ++ g ++ rest) = LexOk ts /\
+    ~ exists ts', tokenize d std_uni true (a ++ g' ++ rest) = LexOk ts' /\
+                  nows (map fst ts') = nows (map fst ts).
+Proof. exact fuses_refutes. Qed.
+Print Assumptions C07_fuses_refutes.
+
+(** ... and WITH a side condition on the last character of the prefix the gap may start with a
+    comment opener directly after the last token (LexerGapsAdj.v).  [adj_okb d u a g]: [g] starts
+    with a blank, or with "--", '/' or '#' where that character is inert for the dialect (no
+    identifier part, not numeric/alphanumeric/whitespace) and the last character [k] of [a] is
+    none of  - / | # @ %  and -- in a dialect where the opener character is a custom-operator
+    character (PostgreSQL) -- [k] is neither an operator starter nor such a character. *)
+Require Import SqlV.LexerGapsAdj.
+
+Theorem C07_layout_gap_adjacent : forall (d : Lexer.dialect) unesc a g g' rest tsa ts,
+  In d DialectTables.all_dialects -> piq_always d = true ->
+  adj_okb d std_uni a g = true -> adj_okb d std_uni a g' = true ->
+  layout_gapb d std_uni unesc g = true -> layout_gapb d std_uni unesc g' = true ->
+  tokenize d std_uni unesc a = LexOk tsa -> ~ ends_with_line (map fst tsa) ->
+  tokenize d std_uni unesc (a ++ g ++ rest) = LexOk ts ->
+  exists ts', tokenize d std_uni unesc (a ++ g' ++ rest) = LexOk ts' /\
+              nows (map fst ts') = nows (map fst ts).
+Proof. exact tokenize_layout_gap_adj_dialects. Qed.
+Print Assumptions C07_layout_gap_adjacent.
+
+Theorem C07_every_layout_gap_adjacent : forall (d : Lexer.dialect) unesc (segs : list (str * str * str)) fin ts,
+  In d DialectTables.all_dialects -> piq_always d = true ->
+  forallb (seg3_adj_okb d unesc) segs = true ->
+  tokenize d std_uni unesc (weave (map fst segs) fin) = LexOk ts ->
+  exists ts', tokenize d std_uni unesc (weave (map (fun s => (fst (fst s), snd s)) segs) fin) = LexOk ts' /\
+              nows (map fst ts') = nows (map fst ts).
+Proof. exact tokenize_every_gap_adj_dialects. Qed.
+Print Assumptions C07_every_layout_gap_adjacent.
+
+(** token level: a token of the prefix is the same token when the tail "o.." is appended *)
+Theorem C07_token_adjacent : forall d u unesc o X1,
+  o = cMINUS \/ o = cSLASH \/ o = cHASH -> (o = cMINUS -> peek_is X1 cMINUS = true) ->
+  d_ident_part d o = false -> u_numeric u o = false -> u_alphanumeric u o = false ->
+  u_whitespace u o = false ->
+  forall ch c,
+  adj_lastb d o (last (ch :: c) 0) = true ->
+  d_delim_start d ch && proper_inside_quotes d u (ch :: c)
+    = d_delim_start d ch && proper_inside_quotes d u (ch :: c ++ o :: X1) ->
+  forall t c2,
+  next_token d u unesc (ch :: c) = Ok (Some (t, c2)) -> (c2 = [] -> closed_ws t = true) ->
+  next_token d u unesc (ch :: c ++ o :: X1) = Ok (Some (t, c2 ++ o :: X1)).
+Proof. exact next_token_adj. Qed.
+Print Assumptions C07_token_adjacent.
+
+(** where the side condition holds: inert opener characters '-', '/', '#' per dialect, and the
+    dialects in which they are custom-operator characters *)
+Example C07_opener_inert :
+  map (fun d => map (opener_inertb d std_uni) [cMINUS; cSLASH; cHASH]) DialectTables.all_dialects =
+  [ [true; true; false]; [true; true; true]; [true; true; true]; [true; true; true];
+    [true; true; true]; [true; true; true]; [true; true; true]; [true; true; false];
+    [true; true; true]; [true; true; true]; [true; true; false]; [true; true; true];
+    [true; true; true] ].
+Proof. exact opener_inert_table. Qed.
+
+(** comment openers of the generated dialects: "--", "/*", "//", "#" *)
+Example C07_comment_openers :
+  map (fun d => map (opens_comment d) [s2l "--"; s2l "/*"; s2l "//"; s2l "#"]) DialectTables.all_dialects =
+  [ [true; true; false; false]; [true; true; false; false]; [true; true; false; true];
+    [true; true; false; false]; [true; true; false; false]; [true; true; false; false];
+    [true; true; false; false]; [true; true; false; false]; [true; true; false; false];
+    [true; true; false; false]; [true; true; false; false]; [true; true; true; true];
+    [true; true; false; false] ].
+Proof. exact comment_openers. Qed.
+
 (** Parser level (proof by interface): every program built from the whitespace-skipping
     cursor interface — in particular the statement loop over any such statement parser —
     gives related results (token-for-token equal values; errors equal up to the position text)
